@@ -1801,6 +1801,23 @@ def rule_setters(m):
             if not two:
                 res.broken('F-SETTER: %s does not test hasEdge(%s,%s)' % (disp, show(x, f.unit), show(y, f.unit)))
                 continue
+            if not multi:
+                # the weight given is stored whatever the weight was: no branch on the stored value guards the overwrite
+                stored_dep = None
+                for dep in ctx.region(overwrites[0].node):
+                    t, pol = ctx.dep_term(dep)
+                    if t is None:
+                        continue
+                    for st in subterms(resolve_locals(ctx, t, {})):
+                        if ctx.label_read(strip_cast(st)) is not None or \
+                                (st[0] == 'mcall' and st[1].endswith(('::getEdgeWeight', '::getEdgeLabel'))):
+                            stored_dep = f.branch_atom(dep[0])
+                if stored_dep is not None:
+                    res.fail(Finding('F-SETTER', disp, 'overwrite depends on the stored weight', f.nloc(stored_dep),
+                                     'whether the new weight is stored depends on `%s`, a test of the weight currently stored: for some '
+                                     'pairs of old and new value the call leaves the old weight in place, so getEdgeWeight is not the '
+                                     'value last set' % f.expr_text(stored_dep)[:80]))
+                    continue
             bad = None
             for has, zero in itertools.product((True, False), (True, False) if multi else (False,)):
                 env = {x: 0, y: 1}
